@@ -5,6 +5,8 @@ import (
 	"encoding/csv"
 	"encoding/json"
 	"fmt"
+	"github.com/akrennmair/updog"
+	"go.etcd.io/bbolt"
 	"os"
 	"os/exec"
 	"strconv"
@@ -20,7 +22,8 @@ type CsvCase struct {
 	Raw     string     `json:"raw,omitempty"`    // hex: raw file content for malformed cases (then Header/Records unused)
 	RawOK   bool       `json:"raw_ok,omitempty"` // Raw is well-formed and means exactly Header/Records
 	Big     bool       `json:"big"`
-	Present string     `json:"present"` // "" | garbage | index : pre-existing output
+	Present string     `json:"present"`             // "" | garbage | index : pre-existing output
+	Stale   bool       `json:"stale_tmp,omitempty"` // <output>.tmp holds the temp database of an earlier, killed `create --big` of similar data
 }
 
 func (c *CsvCase) fileBytes() []byte {
@@ -59,6 +62,11 @@ func runCsvCase(o *Oracle, c *CsvCase, rep *Report, valid string) {
 		os.WriteFile(out, []byte("do not touch"), 0644)
 	case "index":
 		copyFile(valid, out)
+	}
+	if c.Stale && c.Present == "" && c.Raw == "" && len(c.Records) > 0 {
+		leaveStaleTemp(o, c, out+".tmp")
+		defer os.Remove(out + ".tmp")
+		rep.Count("stale-temp-db")
 	}
 	before := sha(out)
 	msg, err := runCreate(csvPath, out, c.Big, 30*time.Second)
@@ -162,8 +170,47 @@ func runCsvCase(o *Oracle, c *CsvCase, rep *Report, valid string) {
 	}
 }
 
+// leaveStaleTemp writes, at path, what a big-mode build killed after its first temp commit leaves behind: a bbolt
+// database with the big writer's temp bucket holding (value index, row id) keys of rows made of the same columns and
+// values as the case's records.
+func leaveStaleTemp(o *Oracle, c *CsvCase, path string) {
+	os.Remove(path)
+	junk := path + ".junk-out"
+	os.Remove(junk)
+	db, err := bbolt.Open(junk, 0644, boltOpts)
+	if err != nil {
+		return
+	}
+	defer os.Remove(junk)
+	defer db.Close()
+	tdb, err := bbolt.Open(path, 0600, boltOpts)
+	if err != nil {
+		return
+	}
+	defer tdb.Close()
+	w, err := updog.NewBigIndexWriter(db, tdb)
+	if err != nil {
+		return
+	}
+	defer w.Close()
+	norm := make([]string, len(c.Header))
+	for i, h := range c.Header {
+		norm[i] = unhx(strings.TrimPrefix(o.Ask("fs hdr "+h), "ok "))
+	}
+	for i := 0; i < 1100; i++ { // past the writer's 1000-row commit
+		rec := c.Records[i%len(c.Records)]
+		m := map[string]string{}
+		for j, f := range rec {
+			m[norm[j]] = unhx(f)
+		}
+		if _, err := w.AddRow(m); err != nil {
+			return
+		}
+	}
+}
+
 func genCsvCase(r *Rng) *CsvCase {
-	c := &CsvCase{Big: r.Chance(1, 2)}
+	c := &CsvCase{Big: r.Chance(1, 2), Stale: r.Chance(1, 3)}
 	nc := 1 + r.Intn(5)
 	used := map[string]bool{}
 	for len(c.Header) < nc {
